@@ -192,7 +192,7 @@ func c07r3(c *Ctx) {
 				if !ok {
 					return
 				}
-				if call, ok := ast.Unparen(rs.X).(*ast.CallExpr); ok {
+				if call, ok := ast.Unparen(origin(fn, rs.X)).(*ast.CallExpr); ok {
 					switch fn.Callee(call) {
 					case poolV1.Origin():
 						v1Loops = append(v1Loops, rs)
@@ -221,6 +221,30 @@ func c07r3(c *Ctx) {
 		// spent sets: map[…]bool variables written in loop bodies
 		sets := func(loops []*ast.RangeStmt) map[types.Object]bool {
 			out := map[types.Object]bool{}
+			// (ids first collected into a local list that is then walked: the loops over that list count too)
+			for _, rs := range append([]*ast.RangeStmt(nil), loops...) {
+				fn := owner[rs]
+				for _, w := range fn.WritesIn(rs.Body, false) {
+					lst := fn.ObjOf(w.LHS)
+					if lst == nil || w.RHS == nil {
+						continue
+					}
+					if _, isSlice := lst.Type().Underlying().(*types.Slice); !isSlice {
+						continue
+					}
+					if ac, ok := ast.Unparen(w.RHS).(*ast.CallExpr); !ok || len(ac.Args) < 2 || fn.ObjOf(ac.Args[0]) != lst {
+						continue
+					}
+					ir.Walk(fn.Body, false, func(x ast.Node) {
+						if rs2, ok := x.(*ast.RangeStmt); ok && fn.ObjOf(rs2.X) == lst {
+							if _, seen := owner[rs2]; !seen {
+								owner[rs2] = fn
+								loops = append(loops, rs2)
+							}
+						}
+					})
+				}
+			}
 			for _, rs := range loops {
 				fn := owner[rs]
 				for _, w := range fn.WritesIn(rs.Body, false) {
